@@ -22,7 +22,12 @@ type counters struct {
 	hardResets, opens, rawDumps                               int64
 	createBatchUsed, fullReads, keyRemovalChecks              int64
 	backupCases, backupGen2Cases                              int64
-	aborted                                                   int32
+	// native layer (fault.go)
+	nativeCalls, multiWriteOps, maxNonEmptyWrites, maxWriteCallsOkBatch int64
+	faultRuns, faultOps, faultSwallowedLegal                            int64
+	faultGet, faultGetMulti, faultPut, faultDelete, faultExecuteBatch   int64
+	wideCases, wideFaultRuns, wideBackupCases, wideNontrivial           int64
+	aborted                                                             int32
 }
 
 // worker owns one long-lived real rdb.RDB in its own directory.
@@ -31,7 +36,8 @@ type worker struct {
 	base string // scratch sub-directory of this worker
 	dir  string // RocksDB directory
 	db   *rdb.RDB
-	cur  content // last complete observation made after the last write
+	fl   *rdb.FaultDBIForVerif // recording / faulting layer between db and its native handle
+	cur  content               // last complete observation made after the last write
 	fs   *failureSet
 	ct   *counters
 	seq  int
@@ -65,6 +71,7 @@ func (w *worker) open() {
 	}
 	atomic.AddInt64(&w.ct.opens, 1)
 	w.db = db
+	w.fl = db.InjectFaultDBIForVerif()
 }
 
 // hardReset throws the directory away and starts from an empty store.
@@ -256,8 +263,17 @@ func delOpOf(k int, v string) op {
 	return op{}
 }
 
-// apply executes one operation on the real store.
-func (w *worker) apply(o op, useCreateBatch bool) (err error, panicked interface{}) {
+// apply executes one operation on the real store; the native calls it makes are
+// recorded, and the failAt-th of them (if > 0) is made to fail.
+func (w *worker) apply(o op, useCreateBatch bool, failAt, failIdx int) (err error, panicked interface{}, tr trace) {
+	w.fl.Begin(failAt, failIdx)
+	err, panicked = w.exec(o, useCreateBatch)
+	tr = endTrace(w.fl)
+	atomic.AddInt64(&w.ct.nativeCalls, int64(len(tr.calls)))
+	return err, panicked, tr
+}
+
+func (w *worker) exec(o op, useCreateBatch bool) (err error, panicked interface{}) {
 	defer func() {
 		if p := recover(); p != nil {
 			panicked = p
@@ -271,9 +287,9 @@ func (w *worker) apply(o op, useCreateBatch bool) (err error, panicked interface
 	default:
 		var b *rdb.Batch
 		if useCreateBatch {
-			// CreateBatch pre-allocates 2 x 100000 entries (about 10 MB): used on a
-			// deterministic subset of transitions, the zero Batch (same behaviour,
-			// no pre-allocation) on the rest.
+			// CreateBatch pre-allocates 2 x DefaultBatchSize entries (scaled down in
+			// this binary, see OVERLAY): used on every other transition, the zero
+			// Batch on the rest.
 			b = w.db.CreateBatch()
 			atomic.AddInt64(&w.ct.createBatchUsed, 1)
 		} else {
@@ -295,13 +311,13 @@ func (w *worker) apply(o op, useCreateBatch bool) (err error, panicked interface
 // fullSeen (per expanded state) remembers which successor contents already had
 // the Find/FindFirst agreement check: those are functions of the same bytes
 // ForEach has just read, so they are compared once per distinct content and state.
-func (w *worker) step(s state, o op, useCreateBatch bool, fullSeen map[string]bool, keyRemoval bool) (content, bool) {
+func (w *worker) step(s state, o op, useCreateBatch bool, fullSeen map[string]bool, keyRemoval, faults bool) (content, bool) {
 	if !w.install(s) {
 		return content{}, false
 	}
 	before := s.content()
 	atomic.AddInt64(&w.ct.transitions, 1)
-	err, panicked := w.apply(o, useCreateBatch)
+	err, panicked, tr := w.apply(o, useCreateBatch, 0, 0)
 	if panicked != nil {
 		w.fs.add(failure{kind: "panic", c: before, o: o, detail: fmt.Sprintf("%s on %s panicked: %v", o, before, panicked)})
 		w.hardReset()
@@ -380,22 +396,15 @@ func (w *worker) step(s state, o op, useCreateBatch bool, fullSeen map[string]bo
 				fail("batch-error", "all additions then all deletions apply cleanly to the map: the batch must succeed")
 				legal = false
 			}
-			okRes, strict := true, true
+			okRes, strict := batchResult(before, want, touched, got)
 			changed := false
 			for k := 0; k < nKeys; k++ {
-				if touched[k] {
-					if !eqMultiset(got[k], want[k]) {
-						okRes = false
-					}
-					if !eqList(got[k], want[k]) {
-						strict = false
-					}
-				} else if !eqList(got[k], before[k]) {
-					okRes = false
-				}
 				if !eqMultiset(want[k], before[k]) {
 					changed = true
 				}
+			}
+			if nw := int64(tr.writeCalls()); nw > atomic.LoadInt64(&w.ct.maxWriteCallsOkBatch) && err == nil {
+				atomic.StoreInt64(&w.ct.maxWriteCallsOkBatch, nw) // evidence only (monotone; a lost update between workers can only lower it)
 			}
 			if !okRes {
 				fail("batch-result", "want %s (named keys compared as multisets, other keys exactly)", want)
@@ -410,6 +419,11 @@ func (w *worker) step(s state, o op, useCreateBatch bool, fullSeen map[string]bo
 				atomic.AddInt64(&w.ct.noops, 1)
 			}
 		}
+	}
+	// "in one atomic step": no state other than the one before and the one after
+	// may ever be in the store (fault.go)
+	if !w.checkAtomic(before, o, got, err, tr) {
+		legal = false
 	}
 	if keyRemoval && legal && err == nil {
 		// "(and the key with its last value)": when a successful operation leaves a
@@ -435,6 +449,11 @@ func (w *worker) step(s state, o op, useCreateBatch bool, fullSeen map[string]bo
 			}
 		}
 	}
+	// every native call of the operation fails in turn (fault.go); the store is
+	// left in whatever the last fault run left (w.cur says what that is)
+	if faults && legal {
+		w.faultRuns(s, o, useCreateBatch, tr)
+	}
 	return got, legal
 }
 
@@ -455,20 +474,10 @@ func rawDump(path string) (map[string][]string, error) {
 	var derr error
 	for it.SeekToFirst(); it.IsValid(); it.Next() {
 		k := string(it.Key())
-		data := it.Value()
-		d[k] = []string{}
-		for len(data) > 0 {
-			if len(data) < 4 {
-				derr = fmt.Errorf("key %q: truncated chunk header (%d stray bytes)", k, len(data))
-				break
-			}
-			n := int(uint32(data[0]) | uint32(data[1])<<8 | uint32(data[2])<<16 | uint32(data[3])<<24)
-			if len(data) < 4+n {
-				derr = fmt.Errorf("key %q: truncated chunk", k)
-				break
-			}
-			d[k] = append(d[k], string(data[4:4+n]))
-			data = data[4+n:]
+		l, err := decodeChunks(k, it.Value())
+		d[k] = l
+		if err != nil {
+			derr = err
 		}
 	}
 	if e := it.GetError(); e != nil && derr == nil {
@@ -477,6 +486,42 @@ func rawDump(path string) (map[string][]string, error) {
 	it.FreeIterator()
 	ro.FreeReadOptions()
 	db.CloseDatabase()
+	return d, derr
+}
+
+// decodeChunks splits a raw stored value into its values (<4 byte little-endian length><value>...).
+func decodeChunks(k string, data []byte) ([]string, error) {
+	l := []string{}
+	for len(data) > 0 {
+		if len(data) < 4 {
+			return l, fmt.Errorf("key %q: truncated chunk header (%d stray bytes)", k, len(data))
+		}
+		n := int(uint32(data[0]) | uint32(data[1])<<8 | uint32(data[2])<<16 | uint32(data[3])<<24)
+		if len(data) < 4+n {
+			return l, fmt.Errorf("key %q: truncated chunk", k)
+		}
+		l = append(l, string(data[4:4+n]))
+		data = data[4+n:]
+	}
+	return l, nil
+}
+
+// decodeDump decodes a raw dump of the open store (FaultDBIForVerif.DumpForVerif).
+func decodeDump(raw map[string][]byte) (map[string][]string, error) {
+	d := map[string][]string{}
+	ks := make([]string, 0, len(raw))
+	for k := range raw {
+		ks = append(ks, k)
+	}
+	sort.Strings(ks)
+	var derr error
+	for _, k := range ks {
+		l, err := decodeChunks(k, raw[k])
+		d[k] = l
+		if err != nil && derr == nil {
+			derr = err
+		}
+	}
 	return d, derr
 }
 
